@@ -45,6 +45,8 @@ pub struct ClassSpec {
     pub thorough: u64,
     /// true when the (class) space is enumerated completely by index (index < count)
     pub exhaustive: bool,
+    /// 0 = the tree under test alone; 1 blst with rust twin; 2 rust with blst twin; 3 blst with pinned twin; 4 pinned with blst twin
+    pub twin_mode: u8,
 }
 
 #[derive(Clone, Debug, Serialize, Deserialize)]
@@ -101,8 +103,50 @@ pub struct RunSummary {
     pub panics_seen: u64,
 }
 
+fn no_exclusion(_: simtypes::Op, _: &[&[u8]], _: &simtypes::Out, _: &simtypes::Out) -> bool {
+    false
+}
+/// Operation classes in which the pinned release is itself wrong (fixed findings) or which are not
+/// part of the stable wire surface: excluded, by name, from the "old and new agree" comparison.
+fn exclude_for_pinned(op: simtypes::Op, args: &[&[u8]], a: &simtypes::Out, b: &simtypes::Out) -> bool {
+    use simtypes::{Codec, Op, Ty};
+    let byte_codec = |c: u8| matches!(Codec::from_u8(c), Some(Codec::Bytes | Codec::BytesVec | Codec::BytesRefVec | Codec::BytesBox | Codec::Be | Codec::Le));
+    match op {
+        // SecretKeyEnum byte forms (old release writes a tag its own parser rejects)
+        Op::Recode => args.len() >= 3 && args[0] == [Ty::SecretKeyEnum as u8] && (byte_codec(args[1][0]) || byte_codec(args[2][0])),
+        Op::ValueEq => args.len() >= 4 && args[0] == [Ty::SecretKeyEnum as u8] && (byte_codec(args[1][0]) || byte_codec(args[3][0])),
+        Op::EnumNew | Op::EnumFromHash | Op::EnumRandom | Op::EnumFromBe | Op::EnumFromLe => true,
+        // decryption-share verification for non-Basic ciphertexts (old release always uses the Basic tag)
+        Op::DShareVerify => args.len() >= 3 && args[2].last().map(|s| *s != 0).unwrap_or(true),
+        // time-lock under MessageAugmentation (old release's ciphertexts were never openable)
+        Op::TlDecrypt => args.first().and_then(|c| c.last()).map(|s| *s == 1).unwrap_or(true),
+        // timestamps ahead of the verifier's clock abort in the old release
+        Op::PokTsVerify => a.is_panic() || b.is_panic(),
+        Op::Exercise => true,
+        _ => false,
+    }
+}
+
 pub fn execute(sc: &dyn Scenario, plan: &Plan, env: &Env) -> Rec {
+    let mode = plan.get("twin_mode");
+    let swapped;
+    let env = if mode == 0 {
+        env
+    } else {
+        let rust = env.rust.unwrap_or(env.cur);
+        let (cur, twin, prop, inv, excl): (&'static dyn simtypes::Lib, &'static dyn simtypes::Lib, &'static str, &'static str, fn(simtypes::Op, &[&[u8]], &simtypes::Out, &simtypes::Out) -> bool) = match mode {
+            1 => (env.cur, rust, "C19", "backends-agree", no_exclusion),
+            2 => (rust, env.cur, "C19", "backends-agree", no_exclusion),
+            3 => (env.cur, env.pinned, "C18", "versions-agree", exclude_for_pinned),
+            _ => (env.pinned, env.cur, "C18", "versions-agree", exclude_for_pinned),
+        };
+        swapped = (Env { cur, rust: env.rust, pinned: env.pinned, profile: env.profile }, kernel::rec::Twin { lib: twin, primary: cur.name(), property: prop, invariant: inv, exclude: excl });
+        &swapped.0
+    };
     let mut rec = Rec::new(&plan.property);
+    if mode != 0 {
+        rec.twin = Some(swapped_twin(plan, env));
+    }
     // a run never sees real entropy or the real clock unless a scenario removes the seams itself
     let prev_e = kernel::seams::set_entropy(Some(Xo::derive(plan.seed, &[0xBA5E])));
     let prev_c = kernel::seams::clock_ns();
@@ -111,6 +155,19 @@ pub fn execute(sc: &dyn Scenario, plan: &Plan, env: &Env) -> Rec {
     kernel::seams::set_clock_ns(prev_c);
     kernel::seams::set_entropy(prev_e);
     rec
+}
+
+fn swapped_twin(plan: &Plan, env: &Env) -> kernel::rec::Twin {
+    // the Env handed in already has the primary as `cur`; rebuild the twin description from the mode
+    let base = crate::env::env();
+    let rust = base.rust.unwrap_or(base.cur);
+    let (twin, prop, inv, excl): (&'static dyn simtypes::Lib, &'static str, &'static str, fn(simtypes::Op, &[&[u8]], &simtypes::Out, &simtypes::Out) -> bool) = match plan.get("twin_mode") {
+        1 => (rust, "C19", "backends-agree", no_exclusion),
+        2 => (base.cur, "C19", "backends-agree", no_exclusion),
+        3 => (base.pinned, "C18", "versions-agree", exclude_for_pinned),
+        _ => (base.cur, "C18", "versions-agree", exclude_for_pinned),
+    };
+    kernel::rec::Twin { lib: twin, primary: env.cur.name(), property: prop, invariant: inv, exclude: excl }
 }
 
 pub struct BatchOut {
@@ -169,7 +226,10 @@ pub fn run_batch(property: &str, tier: Tier, base_seed: u64, classes: &[ClassSpe
                         );
                         if property == "C17" {
                             let sc = classes[ci].scenario;
-                            let plan = sc.gen(property, classes[ci].class, job_seed(base_seed, property, ci, idx), idx, tier);
+                            let mut plan = sc.gen(property, classes[ci].class, job_seed(base_seed, property, ci, idx), idx, tier);
+                            if classes[ci].twin_mode != 0 {
+                                plan.set("twin_mode", classes[ci].twin_mode as i64);
+                            }
                             let path = write_replay(&plan, &Violation { property: property.into(), invariant: "no-loop".into(), detail: "watchdog: no progress for 120 s".into(), at: 0 }, env.profile, "watchdog");
                             println!("VIOLATION property=C17 replay={}", path);
                             std::process::exit(1);
@@ -203,7 +263,10 @@ pub fn run_batch(property: &str, tier: Tier, base_seed: u64, classes: &[ClassSpe
                     current[t].store(j as u64, Ordering::Relaxed);
                     let c = &classes[ci];
                     let seed = job_seed(base_seed, property, ci, i);
-                    let plan = c.scenario.gen(property, c.class, seed, i, tier);
+                    let mut plan = c.scenario.gen(property, c.class, seed, i, tier);
+                    if c.twin_mode != 0 {
+                        plan.set("twin_mode", c.twin_mode as i64);
+                    }
                     let rec = match std::panic::catch_unwind(std::panic::AssertUnwindSafe(|| execute(c.scenario, &plan, env))) {
                         Ok(r) => r,
                         Err(_) => {
